@@ -15,7 +15,7 @@ macro_rules! println {
 }
 macro_rules! print { ($($t:tt)*) => {{}}; }
 
-macro_rules! real_mod { ($name:ident, $file:literal) => { pub mod $name { include!(concat!("/repo/src/", $file)); } }; }
+macro_rules! real_mod { ($name:ident, $file:literal) => { pub mod $name { include!(concat!(env!("FLOUNDER_SRC"), "/", $file)); } }; }
 real_mod!(pieces, "pieces.rs");
 real_mod!(square, "square.rs");
 real_mod!(bitboard, "bitboard.rs");
@@ -25,11 +25,11 @@ real_mod!(moves, "moves.rs");
 pub mod moves { include!("gen/moves_native.rs"); }
 real_mod!(killer_moves, "killer_moves.rs");
 pub mod repetition {
-    include!("/repo/src/repetition.rs");
+    include!(concat!(env!("FLOUNDER_SRC"), "/repetition.rs"));
     pub mod vh { use super::*; pub fn raw(t: &RepetitionTable) -> &Vec<u64> { &t.hashes } }
 }
 pub mod history {
-    include!("/repo/src/history.rs");
+    include!(concat!(env!("FLOUNDER_SRC"), "/history.rs"));
     pub mod vh { use super::*; pub fn cell(h: &HistoryTable, f: usize, t: usize) -> i32 { h.scores[f][t] }
         pub fn set_cell(h: &mut HistoryTable, f: usize, t: usize, v: i32) { h.scores[f][t] = v; } }
 }
@@ -39,7 +39,7 @@ pub mod out;
 pub mod envmodel;
 pub mod transposition {
     mod std { pub use ::std::*; pub mod collections { pub use crate::shim::HashMap; } }
-    include!("/repo/src/transposition.rs");
+    include!(concat!(env!("FLOUNDER_SRC"), "/transposition.rs"));
     pub mod vh {
         use super::*;
         pub fn map(t: &TranspositionTable) -> &crate::shim::HashMap<u64, Entry> { &t.table }
@@ -50,7 +50,7 @@ pub mod absgame;
 pub use absgame::{board, eval, move_gen, timer, zobrist};
 pub mod search {
     #[cfg(kani)]
-    include!("/repo/src/search.rs");
+    include!(concat!(env!("FLOUNDER_SRC"), "/search.rs"));
     #[cfg(not(kani))]
     include!("gen/search_native.rs");
     pub mod vh {
@@ -87,7 +87,7 @@ pub mod uci {
         pub mod io { pub use ::std::io::*; pub use crate::envmodel::stdin; }
         pub mod process { pub use ::std::process::*; pub use crate::envmodel::exit; }
     }
-    include!("/repo/src/uci.rs");
+    include!(concat!(env!("FLOUNDER_SRC"), "/uci.rs"));
     pub mod vh {
         use super::*;
         pub fn command(f: &mut Flounder, c: &str) { f.handle_command(c) }
